@@ -34,15 +34,18 @@ RAM_B = (0x10000, 0x12000)
 RAM_T = (0xFFFFF000, 0x100000000)
 # a fourth device exactly adjacent to RAM_A and listed after it: an access that starts at its first byte is where an
 # off-by-one of the hub's range test shows (device indices of the first three stay what the checks name)
-RAM_C = (0x8000, 0x9000)
-MEMS = [RAM_A, RAM_B, RAM_T, RAM_C]
+RAM_C = (0x8000, 0x8F80)
+# ... and a fifth one that shares its 4 KB page with the end of RAM_C (listed last, indices of the others unchanged): which
+# device serves an access is decided by the address alone, not by the page it lies in nor by what the page served before
+RAM_D = (0x8F80, 0x9000)
+MEMS = [RAM_A, RAM_B, RAM_T, RAM_C, RAM_D]
 CODE = 0x10000
 L1_TABLE = 0x4000
 L2_TABLE = 0x3000
 # physical ranges that User-mode code has no write permission for, per protection setting (programmed below)
 USER_PROTECTED = {'off': [], 's2': [], 'mpu': [(0x1000, 0x3000), (0x11800, 0x12000)], 'mmu': [(0x1000, 0x8000)], 'mmu-ld': None}
 
-ADDRISH = [0x0, 0x4, 0x100, 0x104, 0xFFC, 0x1000, 0x1004, 0x1FFC, 0x2000, 0x2ffc, 0x7FF8, 0x7FFC, 0x7FFE, 0x8000, 0x8004, 0x8FFC, 0x9000,
+ADDRISH = [0x0, 0x4, 0x100, 0x104, 0xFFC, 0x1000, 0x1004, 0x1FFC, 0x2000, 0x2ffc, 0x7FF8, 0x7FFC, 0x7FFE, 0x8000, 0x8004, 0x8F7C, 0x8F80, 0x8F84, 0x8FFC, 0x9000,
            0x10800, 0x11000, 0x11004, 0x11FF8, 0x11FFC, 0x12000, 0xFFFFF000, 0xFFFFF800, 0xFFFFFFE0, 0xFFFFFFF0,
            0xFFFFFFF8, 0xFFFFFFFC, 0xFFFFFFFE, 0xFFFFFFFF, 0x20000000, 0x101, 0x102, 0x103, 0x1001, 0x1002,
            0x00100100, 0x00200100, 0x00201100, 0x00300000]
